@@ -11,7 +11,7 @@ from z3 import And, BoolVal, Const, ForAll, Function, If, Implies, Int, IntSort,
 
 from pyvc import bits, seqs
 from pyvc.seqs import Name, PSet, Seq, add1, fold_add, mem, nodup
-from pyvc.engine import (BoolV, ClassV, FuncV, IntV, IterV, LoopSpec, NONE, ObjV, PyRaise, SeqV, TermV, TupleV, Unsupported,
+from pyvc.engine import (BoolV, ClassV, CompView, FuncV, IntV, IterV, LoopSpec, NONE, ObjV, PyRaise, SeqV, TermV, TupleV, Unsupported,
                          truthy)
 from contracts import lib
 from contracts.heap import PairSetObj, _alloc, _method, fresh_name, fresh_seq, name_of, pair_of
@@ -1057,17 +1057,17 @@ def _remove_empty(axis):
             st.fields['__contains__'] = c
             return st
 
-        def list_closed(interp, env, node):
-            # [o for o in self._objects if o not in nonempty]: the filter of the own names, in order -- checked on a symbolic name
-            g = node.generators[0]
-            src = interp.eval(g.iter, env)
+        def list_closed(interp, env, view):
+            # [o for o in self._objects if o not in nonempty]: the filter of the own names, in order -- checked on a symbolic name.
+            # Stated against the form-independent view of the comprehension (engine.CompView): the source may spell it as a list
+            # comprehension or as `acc = []; for o in self._objects: if o not in nonempty: acc.append(o)` (the same list).
+            if made.get('list') is not None or view.kind not in ('ListComp', 'Accumulator'):
+                raise Unsupported('a second / non-list candidate for the list of the empty names')
+            src = view.source()
             v = Const('cv', Name)
-            inner = dict(env)
-            interp.assign(g.target, TermV(v), inner)
-            conds = [truthy(interp.eval(c, inner)) for c in g.ifs]
-            el = interp.eval(node.elt, inner)
-            ok = src is uobj and len(conds) == 1 and isinstance(el, TermV)
-            path.oblige('closed-form/empty-names', 'post', And(el.t == v, conds[0] == Not(Select(S, v))) if ok else BoolVal(False))
+            conds, el = view.at(TermV(v))
+            ok = src is uobj and len(conds) >= 1 and isinstance(el, TermV)
+            path.oblige('closed-form/empty-names', 'post', And(el.t == v, And(*conds) == Not(Select(S, v))) if ok else BoolVal(False))
             from contracts.heap import ListObj
             lo = ListObj(path, E, 'empty_names')
             made['list'] = lo
@@ -1097,7 +1097,9 @@ def _remove_empty(axis):
             else:
                 path.oblige('post/view', 'post', And(P == kept, O == d.O0, C == d.C0))
             post_wf(path, d)
-        return {'self': d}, {'closed_form': {'SetComp#0': set_closed, 'ListComp#0': list_closed}, 0: spec}, finish
+        return {'self': d}, {'closed_form': {'SetComp#0': set_closed,
+                                             'ListComp#0': lambda interp, env, node: list_closed(interp, env, CompView.of_comprehension(interp, env, node))},
+                             'accumulator_form': {'Accumulator#0': list_closed}, 0: spec}, finish
     return body
 
 
